@@ -166,6 +166,7 @@ type FuncVC struct {
 	guardN   map[string]int  // guarded accesses seen so far, per field (guarded.go)
 	lockClass map[string]string // lock id -> mutex class (struct type + field), for the no-relock obligations
 	relockN  int
+	curIn    ssa.Instruction // instruction being executed (scope of call-site clauses, atlock.go)
 	caHits   map[*CallAssert]int // call-site clauses: number of call sites each was generated for
 	acquired map[string]int  // lock id -> acquisitions seen so far (reacquire rules, locks.go)
 	frameAll bool
